@@ -21,9 +21,9 @@ import vlib
 
 BUILD_CFGS = {
     # property -> tier -> list of (cfg, simulate traces or None for exhaustive BFS)
-    "C15": {"quick": [("MiniLua_bxq", None), ("MiniLua_bq", 900), ("MiniLua_bqa", 600)],
+    "C15": {"quick": [("MiniLua_bxq", None), ("MiniLua_bq", 600), ("MiniLua_bqa", 400)],
             "thorough": [("MiniLua_bx", None), ("MiniLua_bq", 6000), ("MiniLua_bqa", 4000)]},
-    "C41": {"quick": [("MiniLua_bxlq", None), ("MiniLua_bql", 1500)],
+    "C41": {"quick": [("MiniLua_bxlq", None), ("MiniLua_bql", 1000)],
             "thorough": [("MiniLua_bxl", None), ("MiniLua_bql", 10000)]},
 }
 
